@@ -27,7 +27,7 @@ func HookKinds() []string {
 	return append(append([]string{}, hookKinds...), "extendUnexported", "extendUnexportedCtx")
 }
 
-var hookKinds = []string{"extend", "extendExt", "extendErr", "extendCtx", "extendConv", "extendRegex", "method", "methodErr", "mapFunc", "mapFuncErr", "mapNoSource", "underlying", "underlyingMethod", "extendErrCtx", "extendSame", "extendExtCtxRegex", "delegate", "delegateErr", "mapWhole", "mapWholePtr", "underlyingErr", "basicErr", "srcMethodCtx", "srcMethodErr", "dualCtx"}
+var hookKinds = []string{"extend", "extendExt", "extendErr", "extendCtx", "extendConv", "extendRegex", "method", "methodErr", "mapFunc", "mapFuncErr", "mapNoSource", "underlying", "underlyingMethod", "extendErrCtx", "extendSame", "extendExtCtxRegex", "delegate", "delegateErr", "mapWhole", "mapWholePtr", "underlyingErr", "basicErr", "srcMethodCtx", "srcMethodErr", "dualCtx", "underlyingSame"}
 
 // CustomCase builds one case mixing automatic rules with custom functions.
 func CustomCase(r *rand.Rand, name string, o CustomOpts) *Case {
@@ -60,6 +60,8 @@ func CustomCase(r *rand.Rand, name string, o CustomOpts) *Case {
 	fields := map[string]vref.FieldSpec{}
 	var declared []*Method
 	needCtxA, needCtxB, fallible, underlying := false, false, false, false
+	underlyingSame := false
+	useZero := false
 	tyMethods := ""
 	underlyingFlag := false
 	kindsUsed := map[string]bool{}
@@ -266,7 +268,7 @@ func CustomCase(r *rand.Rand, name string, o CustomOpts) *Case {
 			specFuncs = append(specFuncs, &vref.FuncSpec{Key: "fn:" + fn, Kind: "extend", Roles: []string{"source"}})
 			callables["fn:"+fn] = "conv." + fn
 			fallible = true
-			bpos := []string{"V", "P", "LP", "MP", "L", "PP"}
+			bpos := []string{"V", "P", "LP", "MP", "L", "PP", "SP", "LSP", "MSP"}
 			r.Shuffle(len(bpos), func(a, b int) { bpos[a], bpos[b] = bpos[b], bpos[a] })
 			for _, bp := range bpos[:1+r.Intn(3)] {
 				f := fmt.Sprintf("B%s%d", bp, i)
@@ -283,6 +285,16 @@ func CustomCase(r *rand.Rand, name string, o CustomOpts) *Case {
 					sS.Fields, tS.Fields = append(sS.Fields, F(f, Slice(Named(bs)))), append(tS.Fields, F(f, Slice(Named(bt))))
 				case "PP":
 					sS.Fields, tS.Fields = append(sS.Fields, F(f, Ptr(Named(bs)))), append(tS.Fields, F(f, Ptr(Named(bt))))
+				case "SP":
+					// *T -> U positions need useZeroValueOnPointerInconsistency
+					sS.Fields, tS.Fields = append(sS.Fields, F(f, Ptr(Named(bs)))), append(tS.Fields, F(f, Named(bt)))
+					useZero = true
+				case "LSP":
+					sS.Fields, tS.Fields = append(sS.Fields, F(f, Slice(Ptr(Named(bs))))), append(tS.Fields, F(f, Slice(Named(bt))))
+					useZero = true
+				case "MSP":
+					sS.Fields, tS.Fields = append(sS.Fields, F(f, Map(Basic("string"), Ptr(Named(bs))))), append(tS.Fields, F(f, Map(Basic("string"), Named(bt))))
+					useZero = true
 				}
 			}
 		case "srcMethodErr":
@@ -383,6 +395,21 @@ func CustomCase(r *rand.Rand, name string, o CustomOpts) *Case {
 			sS.Fields = append(sS.Fields, F(f, Named(su)), F(f+"L", Slice(Named(su))))
 			tS.Fields = append(tS.Fields, F(f, Named(tu)), F(f+"L", Slice(Named(tu))))
 			underlyingFlag = true
+		case "underlyingSame":
+			// the SAME named basic on both sides: the function for its underlying types still has to be used
+			nf := decl(fmt.Sprintf("NF%d", i), Basic("float32"))
+			fn := fmt.Sprintf("F32Stamp%d", i)
+			if !underlyingSame {
+				underlyingSame = true
+				fmt.Fprintf(&funcsLocal, "func %s(v float32) float32 { return v + 4096 }\n\n", fn)
+				convLines = append(convLines, "extend "+fn)
+				specFuncs = append(specFuncs, &vref.FuncSpec{Key: "fn:" + fn, Kind: "extend", Roles: []string{"source"}})
+				callables["fn:"+fn] = "conv." + fn
+				underlyingFlag = true
+				f := fmt.Sprintf("NS%d", i)
+				sS.Fields = append(sS.Fields, F(f, Named(nf)), F(f+"L", Slice(Named(nf))), F(f+"P", Ptr(Named(nf))))
+				tS.Fields = append(tS.Fields, F(f, Named(nf)), F(f+"L", Slice(Named(nf))), F(f+"P", Ptr(Named(nf))))
+			}
 		case "underlying", "underlyingErr":
 			sid := decl(fmt.Sprintf("SID%d", i), Basic("int"))
 			tid := decl(fmt.Sprintf("TID%d", i), Basic("string"))
@@ -525,6 +552,10 @@ func CustomCase(r *rand.Rand, name string, o CustomOpts) *Case {
 		convLines = append(convLines, "skipCopySameType")
 		flags.SkipCopy = true
 	}
+	if useZero {
+		convLines = append(convLines, "useZeroValueOnPointerInconsistency")
+		flags.UseZero = true
+	}
 	if underlying || underlyingFlag {
 		convLines = append(convLines, "useUnderlyingTypeMethods")
 		flags.UseUnderlying = true
@@ -580,6 +611,13 @@ func CustomCase(r *rand.Rand, name string, o CustomOpts) *Case {
 	if !needCtxA && !needCtxB && r.Intn(4) == 0 {
 		// an unused context must not disturb anything
 		addCtx("unused", ctxB)
+	}
+	if r.Intn(5) == 0 {
+		// a variadic parameter in the context role: the implementation must stay variadic
+		params = append(params, Param{Name: "opts", T: Slice(Basic("int")), Role: "ctx", Variadic: true})
+		roles = append(roles, "ctx")
+		methLines = append(methLines, "context opts")
+		kindsUsed["variadicctx"] = true
 	}
 	cv := &Converter{Pkg: conv, File: "conv.go", Name: "Converter", Format: o.Format, Lines: convLines, OutPkgPath: "conv/generated", OutPkgName: "generated", ImplName: "ConverterImpl",
 		ExtraImports: nil, Callables: callables}
